@@ -214,6 +214,7 @@ func runChild(sc *ScenSpec, tmp string, seedStart uint64, count int, tapeFile st
 	}
 	env := append(os.Environ(), "VERIF_SCEN="+sc.ID, "VERIF_OUT="+out, "VERIF_TMP="+tmp,
 		"GODEBUG=asyncpreemptoff=1", "GORACE=halt_on_error=0 exitcode=66 history_size=3")
+	env = append(env, sc.Env...)
 	if gomaxprocs > 0 {
 		env = append(env, "GOMAXPROCS="+strconv.Itoa(gomaxprocs))
 	} else {
